@@ -216,7 +216,10 @@ def apply_simple_op(world, op):
     vsc = world.vsc
     if k == "set":
         path, v = tuple(op[1]), op[2]
-        node = P.get_node(world.shadow, path)
+        try:
+            node = P.get_node(world.shadow, path)
+        except (IndexError, KeyError):
+            return      # e.g. l[i] after the list was cleared: not a valid user action, skipped on both sides
         if len(path) == 1:
             getattr(world.W, path[0]).set_val(v)
         else:
